@@ -9,6 +9,8 @@ def sh(cmd, **kw): return subprocess.run(cmd, shell=True, capture_output=True, t
 print(sh("./setup.sh", cwd=here, env=dict(env, PYTHONPATH=repo + "/src")).stdout[-300:], flush=True)
 props = ["C%02d" % i for i in range(1, 20)]
 seeds = sorted(d for d in os.listdir(os.path.join(here, "seeded")) if os.path.exists(os.path.join(here, "seeded", d, "patch.diff")))
+if os.environ.get("CROSS_VARIANTS"):          # e.g. "7,8,9,10": only these variants of every property
+    want = set(os.environ["CROSS_VARIANTS"].split(",")); seeds = [d for d in seeds if d.split("-")[1] in want]
 only = sys.argv[1:] or seeds
 if len(only) == 1 and "/" in only[0]:            # "k/n": the k-th of n slices of the seed list
     k, n = map(int, only[0].split("/")); only = seeds[k::n]
